@@ -70,6 +70,13 @@ CHECKS.update(
         note="Reference model in pvlib/ctxmodel.py (stack discipline, last enabled wins, shortest rule chain). hash_mode=mixed. Sequences longer than the bound outside.",
         design="4/C12",
     ),
+    C14=dict(
+        text="get_base_units/to_base_units of the real registry under every declared system on a symbolic magnitude (value and dimensionality preserved for all magnitudes, only declared base units + unreplaced roots per an independent reader, "
+        "idempotent, default_system switches take effect immediately and explicit-system queries do not leak); generated systems with both rule forms and symbolic scales; Group/System membership closure on all group graphs over 3 groups "
+        "(edges and memberships symbolic booleans) before and after each kind of edit against a reference transitive closure, with restricted compatible-unit queries.",
+        note="atomic/Planck systems: units only (float-valued factors). Group graphs with more than 3 groups outside.",
+        design="4/C14",
+    ),
     C15=dict(
         text="to_root_units/to_base_units/to_reduced_units/to_compact/to_preferred and their in-place twins run on a symbolic magnitude: same dimensionality and equal root magnitude proved for all magnitudes; "
         "in-place == functional; to_compact's [1,1000) clause proved over 72 decades under an ideal log10 contract; reduced units checked for mergeable pairs against the independent reader; auto-reduce / auto-preferred registries keep the value.",
